@@ -144,7 +144,7 @@ def check(case, ctx):
 
 
 delay_st = st.one_of(
-    st.tuples(st.just("dfix"), st.one_of(st.sampled_from([0, 30, 60, 90, 600]), st.integers(0, 400))),
+    st.tuples(st.just("dfix"), st.one_of(st.sampled_from([0, 30, 60, 90, 600, 1500, 3000]), st.integers(0, 400))),
     st.tuples(st.just("dpull"), st.integers(1, 4), st.one_of(st.just(0), st.integers(0, 200))),
     st.just(("dpush",)),
 ).map(list)
@@ -164,7 +164,7 @@ def case_st(draw):
     ops = [["push", 0]]
     for _ in range(draw(st.integers(4, 30))):
         if draw(st.integers(0, 9)) < 4:
-            ops.append(["push", draw(st.one_of(st.sampled_from([30, 60, 90]), st.integers(1, 300)))])
+            ops.append(["push", draw(st.one_of(st.sampled_from([30, 60, 90, 1440, 4000]), st.integers(1, 300)))])
         else:
             d = draw(st.sampled_from([1, 2, 3, 4, 7]))
             ops.append(["pull", draw(st.integers(0, d)), d])
